@@ -512,6 +512,125 @@ func perms(n int) [][]int {
 
 var c04Noises = []string{"dup", "unknown", "badversion", "noid", "notify", "notify+hook", "callback", "callback+hook", "strid", "floatid"}
 
+// c04SendFault: one Send fails transiently (the channel and the client stay alive) while a Call and a
+// two-call Batch are being issued concurrently; a further Call follows. The peer withholds every answer
+// until nothing moves, so all transmitted requests are in flight together: their ids must be distinct and
+// every request must complete with the answer for its own id (or the send error).
+func c04SendFault(b Bounds) *Scenario {
+	return &Scenario{
+		Name:   "transient Send failure: Call || Batch[call,call], then Call; answers withheld until quiescence",
+		Params: map[string]any{"fault": "the next Send after an arbitrary moment fails once", "answers": "all at once at quiescence, in arrival order"},
+		Bounds: b,
+		New: func() *Instance {
+			body := func() {
+				lib, peer, pipe := NewPipe(PipeOpts{Name: "cli", CloseUnblocksRecv: true})
+				c := jrpc2.NewClient(lib, nil)
+				type seenReq struct{ id, method string }
+				var seen []seenReq
+				vs.GoNamed("peer", func() {
+					for {
+						rec, ok := peer.Recv()
+						if !ok {
+							return
+						}
+						ms, _, _ := parseRecord(rec)
+						for _, m := range ms {
+							if m.Has("method") && m.Has("id") {
+								var meth string
+								fmt.Sscanf(m.Str("method"), "%q", &meth)
+								seen = append(seen, seenReq{m.ID(), meth})
+								vs.Note("peer-saw", meth, m.ID())
+							}
+						}
+					}
+				})
+				var j Join
+				ret := func(name string, rsp *jrpc2.Response, err error) {
+					vs.Yield("ret")
+					switch {
+					case err != nil:
+						vs.Note("ret", name, "err", err.Error())
+					case rsp.Error() != nil:
+						vs.Note("ret", name, "jerr", rsp.Error().Message)
+					default:
+						vs.Note("ret", name, "ok", rsp.ID(), rsp.ResultString())
+					}
+				}
+				j.Go("fault", func() { vs.Event("env", "sendfault"); pipe.FailSend = errFault })
+				j.Go("A", func() {
+					rsp, err := c.Call(context.Background(), "mA", nil)
+					ret("mA", rsp, err)
+				})
+				j.Go("B", func() {
+					rsps, err := c.Batch(context.Background(), []jrpc2.Spec{{Method: "b0", Params: []int{1}}, {Method: "b1", Params: []int{2}}})
+					if err != nil {
+						ret("b0", nil, err)
+						ret("b1", nil, err)
+					} else {
+						for i, r := range rsps {
+							ret(fmt.Sprintf("b%d", i), r, nil)
+						}
+					}
+					rsp, err := c.Call(context.Background(), "mC", nil)
+					ret("mC", rsp, err)
+				})
+				// answer everything that is in flight once nothing moves, twice (the second round serves mC)
+				for round := 0; round < 3; round++ {
+					vs.AwaitQuiescence()
+					ids := map[string]string{}
+					for _, q := range seen {
+						if prev, dup := ids[q.id]; dup {
+							vs.Note("c04-viol", fmt.Sprintf("requests %s and %s are in flight together with the same id %s", prev, q.method, q.id))
+						}
+						ids[q.id] = q.method
+					}
+					for _, q := range seen {
+						peer.Send([]byte(fmt.Sprintf(`{"jsonrpc":"2.0","id":%s,"result":"R:%s"}`, q.id, q.method)))
+					}
+					seen = nil
+				}
+				vs.AwaitQuiescence()
+				c.Close()
+				j.Wait()
+			}
+			check := func(x *vs.Exec) []Viol {
+				v := genericRules(x, nil)
+				if x.Outcome != "ok" {
+					return v
+				}
+				Hit("C04.R1")
+				for _, e := range x.Log {
+					if e.K == "c04-viol" {
+						v = append(v, Viol{"C04.R1", e.Arg(0)})
+					}
+				}
+				for _, m := range []string{"mA", "b0", "b1", "mC"} {
+					i := findEv(x, 0, "ret", m)
+					if i < 0 {
+						v = append(v, Viol{"C04.R5", "request " + m + " never returned"})
+						continue
+					}
+					e := x.Log[i]
+					switch e.Arg(1) {
+					case "ok":
+						if e.Arg(3) != fmt.Sprintf("%q", "R:"+m) {
+							v = append(v, Viol{"C04.R1", fmt.Sprintf("request %s completed with %s, the peer sent %q for its id", m, e.Arg(3), "R:"+m)})
+						}
+					case "err":
+						if !strings.Contains(e.Arg(2), errFault.Error()) && !strings.Contains(e.Arg(2), "closed") && !strings.Contains(e.Arg(2), "cancel") {
+							v = append(v, Viol{"C04.R1", fmt.Sprintf("request %s failed with %q, which nothing in the scenario causes", m, e.Arg(2))})
+						}
+					default:
+						v = append(v, Viol{"C04.R1", fmt.Sprintf("request %s completed with an error object the peer never sent: %s", m, e.Arg(2))})
+					}
+				}
+				return v
+			}
+			return &Instance{Body: body, Check: check}
+		},
+	}
+}
+
 func c04Scenarios(tier string) []*Scenario {
 	var out []*Scenario
 	q := tier == "quick"
@@ -530,7 +649,7 @@ func c04Scenarios(tier string) []*Scenario {
 			}
 		}
 	}
-	out = append(out, c04Reissue(b2))
+	out = append(out, c04Reissue(b2), c04SendFault(bn))
 	for i, pm := range perms(3) {
 		if q && i%2 == 1 {
 			continue
